@@ -237,8 +237,28 @@ func b2i(b bool) int {
 	return 0
 }
 
+// genDontHaveProfile: a want with send-dont-have for an absent block; the block is stored (+ NotifyNewBlocks) and
+// deleted again BEFORE the task is popped: the DONT_HAVE is still owed.
+func genDontHaveProfile(r *vh.Rand, id int) vh.Case {
+	c := vh.Case{ID: strconv.Itoa(id)}
+	c.Ops = append(c.Ops, fmt.Sprintf("cfg %d %d 1 %d 0 %d %d", r.Range(2, 6), vh.Pick(r, []int{0, 5, 1024}), vh.Pick(r, []int{8, 16384}), r.Range(0, 8), r.Range(1, 16)))
+	c.Ops = append(c.Ops, cidLine(0, "n", vh.Pick(r, []int{3, 10, 30})), cidLine(1, "n", 8))
+	p := r.Intn(3)
+	if r.Chance(1, 3) {
+		c.Ops = append(c.Ops, "add 1", fmt.Sprintf("msg %d 0 1/1/B/0/0", (p+1)%3))
+	}
+	c.Ops = append(c.Ops, fmt.Sprintf("msg %d %d 0/%d/%s/0/1", p, r.Intn(2), r.Range(0, 5), vh.Pick(r, []string{"B", "H"})))
+	for i, m := 0, r.Range(1, 2); i < m; i++ {
+		c.Ops = append(c.Ops, "add 0", "rm 0")
+	}
+	c.Ops = append(c.Ops, "drain")
+	return c
+}
+
 func genCase(r *vh.Rand, tier string, id int) vh.Case {
 	switch r.Intn(16) {
+	case 4:
+		return genDontHaveProfile(r, id)
 	case 0, 1:
 		return genOverflowProfile(r, id)
 	case 2:
@@ -432,6 +452,7 @@ type st struct {
 	truncRisk   map[int]bool                          // the queue bound may have dropped pushed tasks of this peer
 	prevLedger  map[peer.ID]map[cid.Cid]vd.VerifEntry // ledger after the previous op
 	dangling    <-chan *vd.Envelope                   // outbox slot taken from the real worker, envelope not yet produced
+	dhOwed      map[[2]int]bool                       // a want with send-dont-have created the peer's only task for an absent block: a DONT_HAVE (or the block / a HAVE) is owed
 	lostRisk    map[[2]int]bool                       // block (re-)added while a DONT_HAVE sent in place of the block was still un-acked
 	fullCleared bool
 }
@@ -615,6 +636,11 @@ func ints(xs []int) string {
 
 // monitor: the property's send clauses, evaluated on one envelope at send time
 func (s *st) checkEnvelope(p int, r sent) {
+	for _, l := range [][]int{r.blocks, r.haves, r.donthaves} {
+		for _, ci := range l {
+			delete(s.dhOwed, [2]int{p, ci})
+		}
+	}
 	for _, ci := range r.blocks {
 		k := [2]int{p, ci}
 		if !s.has(ci) {
@@ -784,7 +810,7 @@ func (s *st) ack(k int) {
 
 func exec(c vh.Case, o *vh.Out) {
 	s := &st{o: o, pool: map[int]*cidInfo{}, idx: map[cid.Cid]int{}, denied: map[[2]int]bool{},
-		want: map[int]map[int]bool{0: {}, 1: {}, 2: {}}, truncRisk: map[int]bool{}, lostRisk: map[[2]int]bool{}, askedDH: map[[2]int]bool{}, sawAbsent: map[[2]int]bool{}, sawPresent: map[[2]int]bool{}}
+		want: map[int]map[int]bool{0: {}, 1: {}, 2: {}}, truncRisk: map[int]bool{}, lostRisk: map[[2]int]bool{}, dhOwed: map[[2]int]bool{}, askedDH: map[[2]int]bool{}, sawAbsent: map[[2]int]bool{}, sawPresent: map[[2]int]bool{}}
 	defer func() {
 		if s.e != nil {
 			s.e.Close()
@@ -944,6 +970,22 @@ func exec(c vh.Case, o *vh.Out) {
 				}
 			}
 			before := s.e.WantlistForPeer(pid(p))
+			pendBefore, actBefore := s.e.VerifQueueTopics(pid(p))
+			var owedNow []int
+			for _, en := range m.entries {
+				ci := s.idx[en.Cid]
+				delete(s.dhOwed, [2]int{p, ci}) // any new entry for the CID supersedes what was owed
+				if !en.Cancel && en.SendDontHave && !s.has(ci) && !containsCid(pendBefore, en.Cid) && !containsCid(actBefore, en.Cid) {
+					owedNow = append(owedNow, ci)
+				}
+			}
+			if full && len(m.entries) > 0 {
+				for k := range s.dhOwed {
+					if k[0] == p {
+						delete(s.dhOwed, k)
+					}
+				}
+			}
 			if pend, _ := s.e.VerifQueueTopics(pid(p)); len(pend)+len(m.entries) > s.limit {
 				s.truncRisk[p] = true
 			}
@@ -951,6 +993,15 @@ func exec(c vh.Case, o *vh.Out) {
 				res = "kill"
 			}
 			s.checkOverflow(p, full, before, m.entries)
+			// owed only if the want was accepted and its task really is queued now (not truncated, not merged away)
+			pendAfter, _ := s.e.VerifQueueTopics(pid(p))
+			ledAfter, _ := s.e.VerifLedger()
+			for _, ci := range owedNow {
+				c := s.pool[ci].blk.Cid()
+				if _, ok := ledAfter[pid(p)][c]; ok && containsCid(pendAfter, c) {
+					s.dhOwed[[2]int{p, ci}] = true
+				}
+			}
 			if full {
 				o.Kind("msg-full")
 			} else {
@@ -1057,6 +1108,11 @@ func exec(c vh.Case, o *vh.Out) {
 					delete(s.lostRisk, k)
 				}
 			}
+			for k := range s.dhOwed {
+				if k[0] == p {
+					delete(s.dhOwed, k)
+				}
+			}
 			o.Kind("disc")
 		case "drain", "wdrain":
 			got := map[int]*sent{}
@@ -1125,6 +1181,16 @@ func exec(c vh.Case, o *vh.Out) {
 					}
 					s.o.Fail(sig, "%s wants %d (%s), the block is in the store, the queue is empty and the want was not served", p, ci, tstr(m[c].WantType))
 				}
+			}
+			// monitor: a DONT_HAVE that is owed (the peer asked with send-dont-have for a block that was absent, the
+			// engine queued the task for it, the want is still on the list) was sent by now if the block is absent
+			for k := range s.dhOwed {
+				p, ci := k[0], k[1]
+				c := s.pool[ci].blk.Cid()
+				if _, on := ps[pid(p)][c]; !on || s.has(ci) || s.inOutstanding(pid(p), c) || s.truncRisk[p] || s.denied[k] {
+					continue
+				}
+				s.o.Fail("donthave-request-lost", "p%d asked for %d with send-dont-have, its task was queued, the block is absent, the queue is empty: neither DONT_HAVE nor anything else was sent", p, ci)
 			}
 			res = "drained " + strings.Join(parts, " ; ")
 			o.Kind(f[0])
